@@ -28,19 +28,21 @@ PROPS = {
                             "behaviour-late", "connection-limit-reached", "reconnected", "request-never-sent"],
         "assumptions": ["requests small enough for the socket buffer (the client's partial-send path is an unimplemented stub)",
                         "a request without time-out behind a request that is never answered is not judged"],
-        "quick": {"batches": [("c15_client", "plain", 3000), ("c15_client", "tsan", 400)], "chunk": 50},
+        "quick": {"batches": [("c15_client", "plain", 12000), ("c15_client", "tsan", 1500)], "chunk": 100},
         "thorough": {"batches": [("c15_client", "plain", 80000), ("c15_client", "tsan", 10000), ("c15_client", "asan", 10000)], "chunk": 200},
     },
     "C03": {
-        "rule": "1..4 hostile connections x 1..3 hostile messages each (50 % generated requests with 1..4 mutations, 40 % valid skeletons with hostile "
+        "rule": "server side: 1..4 hostile connections x 1..3 hostile messages each (50 % generated requests with 1..4 mutations, 40 % valid skeletons with hostile "
                 "header/cookie/media-type/number values and hostile chunk framing, 10 % raw garbage) in drawn segmentations beside a well-behaved "
-                "keep-alive client on the same worker(s); AddressSanitizer+UBSan build (annotated containers) and plain build with allocation watch; "
+                "keep-alive client on the same worker(s); client side: the real HTTP client against a scripted server that answers 60 % of 1..10 requests with "
+                "mutated responses, hostile status lines / header / Set-Cookie values or garbage, dribbled; AddressSanitizer+UBSan build (annotated containers) and plain build with allocation watch; "
                 + NONTRIVIAL,
-        "probes_expected": ["hostile-input-served", "hostile-input-error-400", "hostile-input-error-413", "hostile-input-error-500", "hostile-input-unanswered"],
-        "assumptions": ["only what a network peer can reach is covered: the request parser inside a running endpoint (and, through C15, the response parser inside a running client); the value parsers are reached through HeadersStep only",
+        "probes_expected": ["hostile-input-served", "hostile-input-error-400", "hostile-input-error-413", "hostile-input-error-500", "hostile-input-unanswered",
+                            "hostile-response-accepted", "hostile-response-rejected", "well-formed-exchange"],
+        "assumptions": ["only what a network peer can reach is covered: the request parser inside a running endpoint, the response parser inside a running client; the value parsers are reached through HeadersStep only",
                         "allocation bound: no single allocation above 4 x maximum request size + 64 KiB while the hostile input is handled (plain build)"],
-        "quick": {"batches": [("c03_hostile", "asan", 1200), ("c03_hostile", "plain", 4000)], "chunk": 100},
-        "thorough": {"batches": [("c03_hostile", "asan", 60000), ("c03_hostile", "plain", 200000), ("c01_l0", "asan", 30000)], "chunk": 500},
+        "quick": {"batches": [("c03_hostile", "asan", 5000), ("c03_hostile", "plain", 20000), ("c15_hostile_server", "asan", 2500), ("c15_hostile_server", "plain", 8000)], "chunk": 200},
+        "thorough": {"batches": [("c03_hostile", "asan", 60000), ("c03_hostile", "plain", 200000), ("c15_hostile_server", "asan", 40000), ("c15_hostile_server", "plain", 100000), ("c01_l0", "asan", 30000)], "chunk": 500},
     },
     "C01": {
         "rule": "L0: one generated request or response per run (methods, paths, 0..4 query parameters, registered and unknown headers, cookies, no body / "
@@ -52,7 +54,7 @@ PROPS = {
                             "cut-inside-crlf", "cut-inside-chunk-framing", "trailing-bytes-after-message", "l1-served", "l1-error-status", "l1-unanswered"],
         "assumptions": ["messages up to the configured size limit (beyond it C14 applies)",
                         "for a mutated byte string the message proper is its shortest complete prefix; bytes after it belong to what follows"],
-        "quick": {"batches": [("c01_l0", "plain", 6000), ("c01_l1", "plain", 2000), ("c01_l0", "asan", 600)], "chunk": 100},
+        "quick": {"batches": [("c01_l0", "plain", 10000), ("c01_l1", "plain", 6000), ("c01_l0", "asan", 1200)], "chunk": 100},
         "thorough": {"batches": [("c01_l0", "plain", 300000), ("c01_l1", "plain", 60000), ("c01_l0", "asan", 30000), ("c01_l1", "asan", 6000)], "chunk": 500},
     },
     "C04": {
@@ -65,7 +67,7 @@ PROPS = {
                             "l1-after-error-413-in-oversized-body"],
         "assumptions": ["every message starts in a new segment (pipelining inside one read is outside the statement)",
                         "an abandoned message ends with the segment that triggers the framework's error answer"],
-        "quick": {"batches": [("c04_l0", "plain", 8000), ("c04_l1", "plain", 1500), ("c04_l0", "asan", 800)], "chunk": 100},
+        "quick": {"batches": [("c04_l0", "plain", 40000), ("c04_l1", "plain", 8000), ("c04_l0", "asan", 4000)], "chunk": 500},
         "thorough": {"batches": [("c04_l0", "plain", 400000), ("c04_l1", "plain", 40000), ("c04_l0", "asan", 40000), ("c04_l1", "asan", 4000)], "chunk": 500},
     },
     "C08": {
@@ -78,7 +80,7 @@ PROPS = {
                             "silence-close-near-timeout", "silence-abort-near-timeout", "stall-beyond-timeout",
                             "abandon-at-once-close", "abandon-at-once-abort", "abandon-at-once-half-close"]],
         "assumptions": ["the descriptor census is taken after all clients are gone and the longest time-out plus 1.5 s have elapsed"],
-        "quick": {"batches": [("c08_lifecycle", "plain", 3000), ("c08_moved_timeout", "plain", 16), ("c08_lifecycle", "asan", 300)], "chunk": 50},
+        "quick": {"batches": [("c08_lifecycle", "plain", 15000), ("c08_moved_timeout", "plain", 16), ("c08_lifecycle", "asan", 1500), ("c08_lifecycle", "tsan", 500)], "chunk": 100},
         "thorough": {"batches": [("c08_lifecycle", "plain", 80000), ("c08_moved_timeout", "plain", 64), ("c08_lifecycle", "asan", 8000), ("c08_lifecycle", "tsan", 8000)], "chunk": 200},
     },
     "C14": {
@@ -90,7 +92,7 @@ PROPS = {
                            + ["stall-%s-%s" % (p, o) for p in ("connect", "line", "headers", "body", "between") for o in ("over", "under")],
         "assumptions": ["time-outs count from the moment the server starts expecting the request (connection accepted / previous request completed)",
                         "stall durations inside [T-0.3 s, T+0.8 s] are not judged (the half-second scan makes them undecidable)"],
-        "quick": {"batches": [("c14_limits", "plain", 6000)], "chunk": 100},
+        "quick": {"batches": [("c14_limits", "plain", 30000), ("c14_limits", "asan", 1500)], "chunk": 200},
         "thorough": {"batches": [("c14_limits", "plain", 200000), ("c14_limits", "asan", 10000)], "chunk": 500},
     },
     "C06": {
@@ -99,7 +101,7 @@ PROPS = {
                 "EAGAIN, EINTR and per-call caps injected by the simulated kernel; " + NONTRIVIAL,
         "probes_expected": ["eagain-branch", "short-write", "write-from-foreign-thread", "file-buffer", "file-buffer-with-would-block"],
         "assumptions": ["liveness is judged 20 simulated seconds beyond three times what the reader's own pace needs"],
-        "quick": {"batches": [("c06_writes", "plain", 5000), ("c06_small", "tsan", 1000)], "chunk": 100},
+        "quick": {"batches": [("c06_writes", "plain", 8000), ("c06_small", "plain", 10000), ("c06_small", "tsan", 3000)], "chunk": 100},
         "thorough": {"batches": [("c06_writes", "plain", 150000), ("c06_small", "plain", 150000), ("c06_small", "tsan", 30000), ("c06_small", "asan", 30000)], "chunk": 500},
     },
     "C07": {
@@ -107,7 +109,7 @@ PROPS = {
                 "issue small requests before, during and after the stall; " + NONTRIVIAL,
         "probes_expected": ["eagain-branch", "short-write"],
         "assumptions": ["latency bound for neighbours: 100 simulated ms (quanta are microseconds; no thread stalls are injected in this scenario)"],
-        "quick": {"batches": [("c07_stall", "plain", 1200), ("c06_writes", "plain", 2000)], "chunk": 50},
+        "quick": {"batches": [("c07_stall", "plain", 3000), ("c06_writes", "plain", 4000)], "chunk": 50},
         "thorough": {"batches": [("c07_stall", "plain", 30000), ("c06_writes", "plain", 50000)], "chunk": 200},
     },
     "C09": {
@@ -117,7 +119,7 @@ PROPS = {
         "probes_expected": ["shutdown-idle", "shutdown-with-load", "shutdown-with-connections-open", "shutdown-with-requests-in-flight",
                             "method-not-allowed", "not-found", "method-without-route-table", "late-client"],
         "assumptions": [],
-        "quick": {"batches": [("c09_serving", "plain", 4000), ("c09_serving", "tsan", 800)], "chunk": 100},
+        "quick": {"batches": [("c09_serving", "plain", 15000), ("c09_serving", "tsan", 2500)], "chunk": 100},
         "thorough": {"batches": [("c09_serving", "plain", 100000), ("c09_serving", "tsan", 20000)], "chunk": 500},
     },
     "C11": {
@@ -128,7 +130,7 @@ PROPS = {
         "probes_expected": ["then-value", "then-void", "then-resolved", "then-pending", "then-rejected", "whenAll", "whenAny", "whenAllRange",
                             "settle-reject", "settle-fulfil", "expect-fulfil", "expect-reject", "left-open"],
         "assumptions": ["what flows past a rejection handler that does not rethrow, and the promise derived from a continuation that returns nothing, are left open (the statement does not constrain them)"],
-        "quick": {"batches": [("c11_programs", "plain", 60000)], "chunk": 1000},
+        "quick": {"batches": [("c11_programs", "plain", 200000), ("c11_programs", "asan", 10000)], "chunk": 2000},
         "thorough": {"batches": [("c11_programs", "plain", 1500000), ("c11_programs", "asan", 60000)], "chunk": 5000},
     },
     "C12": {
@@ -138,7 +140,7 @@ PROPS = {
         "probes_expected": ["shape-root", "shape-derived-value", "shape-derived-void", "shape-derived-resolved-promise", "shape-derived-pending-promise",
                             "shape-derived-chain2", "shape-void-root", "shape-void-derived", "settle-reject", "attacher-builds-chain"],
         "assumptions": ["the promise derived from a continuation that returns nothing is never fulfilled by design; only at-most-once is demanded for continuations attached to it"],
-        "quick": {"batches": [("c12_settle_attach", "plain", 60000), ("c12_settle_attach", "tsan", 6000)], "chunk": 1000},
+        "quick": {"batches": [("c12_settle_attach", "plain", 150000), ("c12_settle_attach", "tsan", 15000)], "chunk": 2000},
         "thorough": {"batches": [("c12_settle_attach", "plain", 1500000), ("c12_settle_attach", "tsan", 150000)], "chunk": 5000},
     },
     "C13": {
@@ -146,7 +148,7 @@ PROPS = {
                 "(uniform random / PCT / sticky) drawn from VERIF_SEED; " + NONTRIVIAL,
         "probes_expected": ["consumer-woken", "prefilled-before-consumer", "plain-queue"],
         "assumptions": ["single consumer (as in Pistache's own use of the queue)"],
-        "quick": {"batches": [("c13_queue", "plain", 40000), ("c13_queue", "tsan", 6000)], "chunk": 1000},
+        "quick": {"batches": [("c13_queue", "plain", 150000), ("c13_queue", "tsan", 15000)], "chunk": 2000},
         "thorough": {"batches": [("c13_queue", "plain", 1000000), ("c13_queue", "tsan", 150000)], "chunk": 5000},
     },
 }
